@@ -10,6 +10,7 @@ mod c04;
 mod c05;
 mod c06;
 mod c08;
+mod c09;
 mod c07;
 mod c14;
 mod c20;
@@ -52,6 +53,7 @@ fn main() {
         "C05" => c05::run(&o),
         "C06" => c06::run(&o),
         "C08" => c08::run(&o),
+        "C09" => c09::run(&o),
         "C07" => c07::run(&o),
         "C14" => c14::run(&o),
         "C20" => c20::run(&o),
